@@ -616,3 +616,6 @@ def replay(witness):
         return vs != {k: imp[k] for k in vs if k in imp}
     fails, _ = oracle_failures(case)
     return any(name == witness['oracle'] for name, _, _ in fails)
+
+
+LEVEL_TEXT_EXT = ('C19Expr: dataFilter / dataCalculatedField / dataJoin evaluate their expression TEXT with the modelled parser and machine (row = locals, variables over globals, state threaded through the rows): each function = the fold of the machine over the rows; for call-free expressions = List.filter / map / relational join; parse errors evaluate nothing; the statement budget fires exactly at L+1.')
